@@ -25,8 +25,11 @@ CLAIMS = {
              "declarations gives the same value to every condition; C02_reference_false that undeclared and cyclic references are invisible "
              "(read false); C02_presence, C02_if, C02_novalue_list/obj, C02_and_or/not/equals state the remaining clauses. The driver runs "
              "Template.resolveT against CFModel.resolve (observing what it hands to re-validation) and every template is re-run with its "
-             "Conditions permuted.",
-        note=TRUST + "input is the parsed model's dump; the step bound (fuel = number of declarations + 1) is not yet proved sufficient in Lean (a shortfall would show as 'outside fragment', never as agreement)."),
+             "Conditions permuted. Props/C02Termination proves that the two step bounds of the model never decide a result: "
+             "C02_search_complete / C02_cycle_recognised (the bounded visited-set search finds every reachable node, by a potential "
+             "argument), C02_chain_nodup (no condition repeats along visible references), C02_terminates (the value under the model's bound "
+             "is the value under every larger bound: the recursion depth is at most the number of conditions), C02_fuel_monotone.",
+        note=TRUST + "input is the parsed model's dump; Props/C02Termination imports Batteries.Data.List.Perm (pigeonhole on duplicate-free lists), nothing else outside core."),
     "C04": dict(
         technique="Lean 4 proof (reference value by cases, binding precedence by lookup lemmas, NoEcho noninterference, SSM key recogniser, credential predicate) + exhaustive declaration table + differential correspondence",
         text="Template.refValue / bind transliterate Parameter.get_ref_value and the {pseudo, declared, extra} merge. Proved for all "
